@@ -1,5 +1,6 @@
 """C06 — numeric comparisons agree with the exact order. Spec: MBF.tla (Decode, Cmp); oracle self-check MBF_MC;
 trace spec C06_Trace."""
+import os
 import time
 from ..mbfdrv import (Drv, Pipeline, Sink, typ, int_bytes, flt, flt_of_int, neighbour, negated, rand_float, rand_value, rand_int, PBITS, SIZE)
 
@@ -27,6 +28,10 @@ def run(ctx):
                        'distinct (types, operand bytes, route) tuples; non-trivial = all')
     quick = ctx.quick()
     rng = ctx.rng
+    # development knob only (smoke-testing the thorough code paths quickly); evidence records it when used
+    scale = float(os.environ.get('VF_MBF_SCALE', '1'))
+    if scale != 1:
+        ctx.cov['volume_scale'] = scale
     ctx.model_check('MBF_MC', 'MBF_MC_quick.cfg' if quick else 'MBF_MC.cfg', require_actions=False, workers=4)
     t0 = time.time()
     d = Drv()
@@ -116,7 +121,7 @@ def run(ctx):
             return z
         return negated(neighbour(y, rng.choice([1, -1])) or y) or y
 
-    npair = ctx.pick(8000, 300000)
+    npair = max(10, int(ctx.pick(8000, 300000) * scale))
     for tx in 'isd':
         for ty in 'isd':
             for i in range(npair):
